@@ -5,6 +5,14 @@ From Coq Require Import String Ascii.
 From stdpp Require Import gmap strings.
 Local Open Scope string_scope.
 
+(* a node of r that no child continues on its own branch *)
+Definition branch_leaf (r : repo) (n : node) : Prop :=
+  forall c cn, c ∈ n_children n -> r_nodes r !! c = Some cn -> n_branch cn <> n_branch n.
+
+(* the newest node of its branch: no node of the repo with the same branch name has a larger id *)
+Definition branch_newest (r : repo) (v : N) (n : node) : Prop :=
+  forall w m, r_nodes r !! w = Some m -> n_branch m = n_branch n -> (w <= v)%N.
+
 (* one repo's DAG, on its own *)
 Record repo_wf (r : repo) : Prop := {
   (* the root node exists, carries the repo's root UUID and has no parent *)
@@ -28,15 +36,16 @@ Record repo_wf (r : repo) : Prop := {
       c1 ∈ n_children n -> c2 ∈ n_children n ->
       r_nodes r !! c1 = Some n1 -> r_nodes r !! c2 = Some n2 ->
       n_parents n1 = [v] -> n_parents n2 = [v] -> n_branch n1 = n_branch n2 -> c1 = c2;
+  (* the leaf of a named branch is its newest node: the branch is one chain, and the head the
+     server computes (largest version id on the branch) is the node no child continues *)
+  wf_leaf_newest : forall v n, r_nodes r !! v = Some n -> n_branch n <> "" -> branch_leaf r n ->
+      branch_newest r v n;
   (* "master" is only ever the label of the empty branch name *)
   wf_no_master : forall v n, r_nodes r !! v = Some n -> n_branch n <> s_master_label;
   (* root UUIDs are well-formed (they prefix the keys of the branch head cache) *)
   wf_root_len : String.length (r_root r) = 32%nat
 }.
 
-(* a node of r that no child continues on its own branch *)
-Definition branch_leaf (r : repo) (n : node) : Prop :=
-  forall c cn, c ∈ n_children n -> r_nodes r !! c = Some cn -> n_branch cn <> n_branch n.
 
 Record RepoInv (s : state) : Prop := {
   (* every live repo (entry of repoToUUID) is a well-formed repo object with that root *)
@@ -58,9 +67,10 @@ Record RepoInv (s : state) : Prop := {
   inv_next_r : forall i r, st_repos s !! i = Some r -> (i < st_next_r s)%N;
   (* NilUUID names nothing *)
   inv_nil : st_u2v s !! "" = None;
-  (* the head cache points at the one leaf of every named branch *)
-  inv_heads : forall i R r v n, st_roots s !! i = Some R -> st_repos s !! i = Some r ->
-      r_nodes r !! v = Some n -> n_branch n <> "" -> branch_leaf r n ->
+  (* the head cache points at the newest node of every branch, the default branch ("", cached as
+     "master") included; for a named branch that is its one leaf (wf_leaf_newest) *)
+  inv_head_newest : forall i R r v n, st_roots s !! i = Some R -> st_repos s !! i = Some r ->
+      r_nodes r !! v = Some n -> branch_newest r v n ->
       st_heads s !! head_key (r_root r) (n_branch n) = Some (n_uuid n)
 }.
 
